@@ -62,7 +62,8 @@ def cases(draw):
 
 def _tol(dtypes):
     if any(np.dtype(d) in (np.dtype('float32'), np.dtype('float16')) for d in dtypes):
-        return 1e-3 if any(np.dtype(d) == np.dtype('float16') for d in dtypes) else 1e-5
+        # float16 has an epsilon of 9.8e-4: a handful of roundings in a different accumulation order (block-wise against line-wise) is 2-4 units
+        return 5e-3 if any(np.dtype(d) == np.dtype('float16') for d in dtypes) else 1e-5
     return 1e-12
 
 
